@@ -60,7 +60,52 @@ def oracle(case, out):
             free = not any(e["outrank"][a][b] for a in range(n))
             if bool(out["values"][b]) != free:
                 return f"kernel[{b}]={out['values'][b]} but nothing-outranks-it is {free}"
+    if name == "electre2":
+        p0, p1, p2, q0, q1 = thresholds(case)
+        C, D, W = e["matrix_concordance"], e["matrix_discordance"], e["matrix_wor"]
+        for a in range(n):
+            for b in range(n):
+                ws = a != b and bool(W[a][b]) and ((C[a][b] >= p0 and D[a][b] <= q0) or (C[a][b] >= p1 and D[a][b] <= q1))
+                ww = a != b and bool(W[a][b]) and C[a][b] >= p2 and D[a][b] <= q0
+                if bool(e["outrank_s"][a][b]) != ws:
+                    return (f"outrank_s[{a}][{b}]={e['outrank_s'][a][b]} but the documented combination of the reported "
+                            f"c={C[a][b]!r}, d={D[a][b]!r}, weight comparison={bool(W[a][b])} gives {ws}")
+                if bool(e["outrank_w"][a][b]) != ww:
+                    return (f"outrank_w[{a}][{b}]={e['outrank_w'][a][b]} but the documented combination of the reported "
+                            f"c={C[a][b]!r}, d={D[a][b]!r}, weight comparison={bool(W[a][b])} gives {ww}")
+        S = [[bool(x) for x in r] for r in e["outrank_s"]]
+        Wk = [[bool(x) for x in r] for r in e["outrank_w"]]
+        direct = distill(S, Wk, n)
+        tr = lambda t: [[t[j][i] for j in range(n)] for i in range(n)]   # noqa: E731
+        inv0 = distill(tr(S), tr(Wk), n)
+        inverse = [max(inv0) + 1 - r for r in inv0]
+        if list(e["ranking_direct"]) != direct:
+            return f"ranking_direct={list(e['ranking_direct'])} but distilling the reported relations gives {direct}"
+        if list(e["ranking_inverted"]) != inverse:
+            return f"ranking_inverted={list(e['ranking_inverted'])} but distilling the reported relations gives {inverse}"
+        avg = [Fraction(a + b, 2) for a, b in zip(direct, inverse)]
+        final = [1 + len({y for y in avg if y < x}) for x in avg]
+        if [Fraction(x) for x in e["score"]] != avg or list(out["values"]) != final:
+            return f"score/final ranking {e['score']}/{list(out['values'])} but the two distillations give {avg}/{final}"
     return None
+
+
+def distill(s, w, n):
+    """The iterative distillation, straight from its description: among the alternatives still in play, those that
+    no remaining alternative strongly outranks but some remaining alternative weakly outranks form the next class;
+    when no such alternative exists everybody left shares the last class."""
+    idx, ranking, pos = list(range(n)), [0] * n, 1
+    while idx:
+        chosen = [i for i in idx if not any(s[j][i] for j in idx) and any(w[j][i] for j in idx)]
+        if not chosen:
+            for i in idx:
+                ranking[i] = pos
+            break
+        for i in chosen:
+            ranking[i] = pos
+        idx = [i for i in idx if i not in chosen]
+        pos += 1
+    return ranking
 
 
 def wor_direct(case):
